@@ -30,6 +30,21 @@ def run(chk):
         for n in u["names"]:
             if v.typable(n):
                 names.append({"key": k, "name": n})
+    # every spelling the build's generated unit parser knows (src/generated/unit.rs), so that a unit the vocabulary of the
+    # specification has not heard of is still round-tripped
+    import re
+    known = {n for u in v.units.values() for n in u["names"]} | set(v.pref)
+    try:
+        src = open(os.path.join(vlib.REPO, "src", "generated", "unit.rs"), encoding="utf-8").read()
+        toks = set(re.findall(r'#\[token\("([^"]+)"\)\]', src))
+    except OSError:
+        toks = set()
+    unknown = sorted(t for t in toks - known if v.typable(t))
+    for t in unknown:
+        names.append({"key": "?", "name": t})
+    chk.cov["spellings_of_the_build_unknown_to_the_vocabulary"] = unknown[:20]
+    for t in unknown[:10]:
+        chk.drift("the build's unit parser knows the spelling %r, the vocabulary of the specification does not" % t)
     ug = ugen.UnitGen(v, rnd, maxpow=3)
     comps = []
     for _ in range(p["compounds"]):
